@@ -74,7 +74,16 @@ class Or(Constraint):
     def __init__(self, **data) -> None:
         super().__init__(**data)
 
-        asst = z3.Or(_constraints_to_list_of_assertions(self.list_of_constraints))
+        # each operand stands for the conjunction of its own assertions
+        operands = []
+        for constraint in self.list_of_constraints:
+            assertions = _get_assertions(constraint)
+            if isinstance(assertions, list):
+                operands.append(z3.And(assertions))
+            else:
+                operands.append(assertions)
+
+        asst = z3.Or(operands)
 
         self.set_z3_assertions(asst)
 
